@@ -220,9 +220,8 @@ def run_rules(pid, tier, seed, fams, per_family_quick, level_rule, assumptions, 
     nviol = 0
     for r in flat:
         fails = mirror(pid, r)
-        if (r["id"] in accepted) != (not fails):
-            raise vlib.MachineryError("TLC and the Python mirror disagree on observation %d: TLC accepted=%s mirror=%s" %
-                                      (r["id"], r["id"] in accepted, fails))
+        if not vlib.reconcile("observation %d %s" % (r["id"], fails), r["id"] in accepted, not fails) and not fails:
+            fails = [vlib.UNNAMED]
         if r["oshape_spec"] != [-1] and r["oshape_spec"] != r["out_shape"]:
             raise vlib.MachineryError("Shape.tla predicts output shape %s, NumPy gives %s for %s" % (r["oshape_spec"], r["out_shape"], by_id[r["id"]]["cfg"]))
         if fails:
@@ -306,9 +305,10 @@ def helper_lemmas(verdict, tier):
     obs, files = vlib.parallel_replay("helpers_replay.py", cases, nproc=8, tag="helpers")
     accepted, g2, d2, _w, _inv = vlib.parallel_validate("TraceHelpers", files, cfg="SPECIFICATION Spec\n", njvm=8)
     for o in obs:
-        good = (not o["err"]) and o["got"] == o["want"]
+        wshape = o["r"] if o["kind"] == "broadcast" else o["t"]
+        good = (not o["err"]) and o["got"] == o["want"] and list(o["gotshape"]) == list(wshape)
         if good != (o["id"] in accepted) and not (o["kind"] == "repeat" and good):
-            raise vlib.MachineryError("TLC and the Python mirror disagree on helper observation %s" % o)
+            vlib.reconcile("helper observation %s" % o, o["id"] in accepted, good)
         if o["id"] not in accepted:
             verdict.violation({"prim": o["kind"], "fam": "helper-function", "t": o["t"], "r": o["r"]},
                               {"reason": "shared helper %s returned %s (shape %s), the adjoint/forward map gives %s" % (o["kind"], o["got"][:12], o["gotshape"], o["want"][:12]),
